@@ -207,6 +207,8 @@ def run_task(t):
 def main():
     logging.disable(logging.CRITICAL)        # nbdime logs warnings/errors for unknown strategies; they are not exceptions
     tasks = json.load(open(sys.argv[1]))
+    import prelude
+    prelude.maybe_abort_prelude()
     results = []
     for t in tasks:
         try:
